@@ -302,6 +302,72 @@ def send_loop(rep, u):
     return len(paths)
 
 
+def _origin(fn, e, depth=0):
+    """where a value comes from: locals with one definition are followed; calls and parameters are named by role"""
+    e = core.strip_casts(e)
+    if e is None:
+        return ("?",)
+    k = e.get("k")
+    if k == "ref" and e.get("dk") == "local" and depth < 4:
+        defs = [x["y"] for _p, _r, x, _ps in fn.nodes() if x.get("k") == "bin" and x["op"] == "=" and core.is_ref(core.strip_casts(x["x"]), id=e.get("id"))]
+        for _p, _r, x, _ps in fn.nodes():
+            if x.get("k") == "decl":
+                defs += [v["init"] for v in x.get("vars", []) if v.get("id") == e.get("id") and v.get("init") is not None]
+        if len(defs) == 1:
+            return _origin(fn, defs[0], depth + 1)
+        return ("local", len(defs))
+    if k == "ref" and e.get("dk") == "parm":
+        return ("parm", fn.unit.tstr(e["t"]) if "t" in e else "")
+    if k == "call":
+        return ("call", e.get("fn")) + tuple(_origin(fn, a, depth + 1) for a in e.get("args", []))
+    if k == "mem":
+        return ("field", e.get("rec"), e.get("f"), _origin(fn, e.get("b"), depth + 1))
+    if core.const_val(e) is not None:
+        return ("const", core.const_val(e))
+    return ("expr", key(e))
+
+
+def countdown_initial(rep, u, field="active_thr_count", loop_fn="tpt_msg_broadcast_send__int"):
+    """the countdown is decremented once per iteration of the send loop: by the receiving thread for a message that was
+    sent, by the sender for a skipped or failed one.  Its initial value is therefore the number of iterations - the same
+    quantity the loop is bounded by, not the number of threads that happen to run"""
+    fl = tp.need(u, loop_fn)
+    sends = [pos for pos, root, c, ps in fl.calls({"tpt_msg_send"})]
+    hdr = [h for h, body in fl.loops().items() if sends and sends[0][0] in body]
+    if not hdr or fl.blocks[hdr[0]].cond is None:
+        raise driver.AnalysisBroken("send loop of %s not found" % loop_fn)
+    c = core.strip_casts(fl.blocks[hdr[0]].cond)
+    if not (c.get("k") == "bin" and c["op"] in ("<", ">", "!=")):
+        raise driver.AnalysisBroken("send loop condition of %s has an unexpected form" % loop_fn)
+    sides = [core.strip_casts(c["x"]), core.strip_casts(c["y"])]
+    bound = [s_ for s_ in sides if not any(core.step_of(n) is not None and key(core.strip_casts(core.step_of(n)[0])) == key(s_)
+                                           for _p, _r, n, _ps in fl.nodes())]
+    if len(bound) != 1:
+        raise driver.AnalysisBroken("send loop bound of %s not identified" % loop_fn)
+    want = _origin(fl, bound[0])
+    n = 0
+    for fn in u.function_list:
+        if fn.relfile() != tp.MSG_C or not fn.has_cfg:
+            continue
+        for pos, root, x, ps in fn.nodes():
+            if x.get("k") == "bin" and x["op"] == "=" and core.strip_casts(x["x"]).get("k") == "mem" and core.strip_casts(x["x"]).get("f") == field:
+                n += 1
+                rep.functions.add(fn.name)
+                got = _origin(fn, x["y"])
+                desc = "%s: the countdown starts at the number of iterations of the send loop of %s" % (fn.name, loop_fn)
+                ok = got == want
+                if not ok and got[0] != want[0]:
+                    rep.undecided("R-AGREE", fn, "countdown-initial@%s" % fn.name, desc, "the loop bound is %s and the initial value %s: "
+                                  "different kinds of expression, equality not decided" % (want, got), x.get("ln"))
+                    continue
+                (rep.proved if ok else rep.violated)(
+                    "R-AGREE", fn, "countdown-initial@%s" % fn.name, desc,
+                    ("both are %s" % (want,)) if ok else "the loop runs %s times but the countdown starts at %s: a target that is skipped or fails is "
+                    "subtracted by the sender although it was never counted (or the reverse), so the completion fires early or never" % (want, got),
+                    x.get("ln"))
+    return n
+
+
 def completion_destination(rep, u):
     """the completion (done) message goes to the thread that issued the broadcast: at every site that posts the completion
     proxy, the destination argument of tpt_msg_send is the record's originator field (->tpt, directly or through a local that
@@ -498,6 +564,7 @@ def run(rep, tier):
     n5 = completion(rep, u)
     rep.floor("completion post sites", completion_destination(rep, u), 2)
     rep.floor("self-serving flag combinations", self_once(rep, u), 4)
+    rep.floor("countdown initialisations", countdown_initial(rep, u), 2)
     rep.floor("countdown accesses", n1, 6)
     rep.floor("countdown release sites", n2, 1)
     rep.floor("cbsend paths from allocation", n3, 5)
